@@ -12,6 +12,7 @@ struct Problem {
   bool sw[5];          // CoherentRho, NonCoherentRho, OtherRho, GammaScalar, OtherScalar
   int family;          // 0: commuting diagonal operators (time dependent), 1: dense non-commuting, time independent
   double kappa, kappa2;  // time slopes of HI and GammaScalar
+  double tscale = 1.0;   // time unit: the same physical problem with time measured in units of 1/tscale (every rate x tscale, evaluated at tscale*t)
   int sw_order = 0;      // order in which the five Set_*Terms calls are made (see Probe::apply_switches)
   double omega(int ix, int ir) const { return 0.7 + 0.31 * ix - 0.23 * ir + 0.05 * ix * ir; }
   double gam(int ix, int ir) const { return 0.11 + 0.07 * ix + 0.05 * ir; }
@@ -22,17 +23,22 @@ struct Problem {
   double glev(int j) const { return 0.3 + 0.11 * j; }
   double plev(int j) const { return 0.5 - 0.13 * j + 0.04 * j * j; }
   static Mat herm(int n, int w) { Mat m(n); for (int i = 0; i < n; i++) for (int j = 0; j < n; j++) { cd z(std::cos(1.3 * i + 0.7 * j + w), std::sin(0.4 * i - 1.1 * j + 0.5 * w)); m(i, j) += 0.3 * z; m(j, i) += 0.3 * std::conj(z); } return m; }
-  Mat HIm(int ix, int ir, double t) const {
+  Mat HIm(int ix, int ir, double t) const { return tscale == 1.0 ? HIm_u(ix, ir, t) : cd(tscale, 0) * HIm_u(ix, ir, t * tscale); }
+  Mat Gm(int ix, int ir, double t) const { return tscale == 1.0 ? Gm_u(ix, ir, t) : cd(tscale, 0) * Gm_u(ix, ir, t * tscale); }
+  Mat Pm(int ix, int ir, double t) const { return tscale == 1.0 ? Pm_u(ix, ir, t) : cd(tscale, 0) * Pm_u(ix, ir, t * tscale); }
+  double GSc(int ix, int is, double t) const { return tscale == 1.0 ? GSc_u(ix, is, t) : tscale * GSc_u(ix, is, t * tscale); }
+  double ISc(int ix, int is, double t) const { return tscale == 1.0 ? ISc_u(ix, is, t) : tscale * ISc_u(ix, is, t * tscale); }
+  Mat HIm_u(int ix, int ir, double t) const {
     if (family == 0) { std::vector<double> e(d); for (int j = 0; j < d; j++) e[j] = omega(ix, ir) * (1 + kappa * t) * dlev(j); return ref::diag(e); }
     return cd(omega(ix, ir), 0) * herm(d, 1);
   }
-  Mat Gm(int ix, int ir, double t) const {
+  Mat Gm_u(int ix, int ir, double t) const {
     if (family == 0) { std::vector<double> e(d); for (int j = 0; j < d; j++) e[j] = gam(ix, ir) * glev(j); return ref::diag(e); }
     return cd(gam(ix, ir), 0) * (herm(d, 4) + cd(1.0, 0) * ref::eye(d));
   }
-  Mat Pm(int ix, int ir, double t) const { std::vector<double> e(d); for (int j = 0; j < d; j++) e[j] = sig(ix, ir) * plev(j); return ref::diag(e); }
-  double GSc(int ix, int is, double t) const { return gs(ix, is) * (1 + kappa2 * t); }
-  double ISc(int ix, int is, double t) const { return is_(ix, is); }
+  Mat Pm_u(int ix, int ir, double t) const { std::vector<double> e(d); for (int j = 0; j < d; j++) e[j] = sig(ix, ir) * plev(j); return ref::diag(e); }
+  double GSc_u(int ix, int is, double t) const { return gs(ix, is) * (1 + kappa2 * t); }
+  double ISc_u(int ix, int is, double t) const { return is_(ix, is); }
   int size_state() const { return d * d * nrho + nsc; }
   int neq() const { return nx * size_state(); }
   // reference right-hand side on a flat state array (node-major: nrho blocks of d^2 components, then scalars)
@@ -52,6 +58,7 @@ struct Problem {
   }
   // closed-form solution for family 0 (requires kappa==0 when sw[2], kappa2==0 when sw[4]); family 1 without source
   std::vector<double> exact(const std::vector<double>& y0, double t0, double t1) const {
+    if (tscale != 1.0) { Problem q = *this; q.tscale = 1.0; return q.exact(y0, t0 * tscale, t1 * tscale); }
     const ref::Basis& B = ref::basis(d); int ss = size_state(), n = d * d; double tau = t1 - t0, tq = 0.5 * (t1 * t1 - t0 * t0);
     std::vector<double> y(y0.size());
     for (int ix = 0; ix < nx; ix++) {
